@@ -88,6 +88,12 @@ def specs(draw, tier):
         spec["source"] = draw(st.sampled_from([None, None, 0, 1, "callable"]))
         spec["existing"] = draw(st.integers(0, 2))  # frames already present in a supplied time course
         spec["with_file"] = draw(st.booleans())
+        spec["storage"] = draw(st.sampled_from(["memory", "memory", "file"]))
+        if draw(st.integers(0, 5)) == 0:
+            # the tracker is obtained from the time course itself (EmulsionTimeCourse.tracker): default analysis settings
+            spec["route"] = "timecourse"
+            spec["settings"] = {"threshold": 0.5, "minimal_radius": 0, "refine": False, "refine_args": None, "modes": 0}
+            spec["source"] = None
     else:
         spec["method"] = draw(st.sampled_from(["structure_factor_mean", "structure_factor_maximum", "droplet_detection"]))
         spec["source"] = draw(st.sampled_from([None, None, 1]))
@@ -194,21 +200,37 @@ class C14(Property):
         ctx.cls("direct", spec["grid"]["family"], f"source:{src}", f"refine:{s['refine']}", f"modes:{s['modes']}", f"frames:{len(fields)}")
         existing = None
         prefix_model = []
-        if spec["existing"]:
+        via_tc = spec.get("route") == "timecourse"
+        if spec["existing"] or via_tc:
             existing = EmulsionTimeCourse()
             for k in range(spec["existing"]):
                 e = Emulsion([SphericalDroplet(np.full(grid.dim, float(k)), 1.0 + k)])
                 existing.append(e, -100.0 + k)
             prefix_model = [(t, em_records(e)) for t, e in zip(existing.times, existing.emulsions)]
-        tmp = _scratch() if spec["with_file"] else None
+        file_storage = spec.get("storage") == "file" and bool(fields)
+        tmp = _scratch() if (spec["with_file"] or file_storage) else None
         try:
-            path = os.path.join(tmp, "tracker.hdf5") if tmp else None
+            path = os.path.join(tmp, "tracker.hdf5") if spec["with_file"] else None
             if src == "callable":
                 source = lambda fc: fc[1]  # noqa: E731
             else:
                 source = src
-            tr = DropletTracker(1, filename=path, emulsion_timecourse=existing, source=source, threshold=kw["threshold"], minimal_radius=kw["minimal_radius"], refine=kw["refine"], refine_args=kw["refine_args"], perturbation_modes=kw["modes"])
-            storage = MemoryStorage()
+            if via_tc:
+                ctx.cls("route:timecourse.tracker")
+                tr = existing.tracker(1, filename=path) if path else existing.tracker(1)
+                kw = {"threshold": 0.5, "minimal_radius": 0, "refine": False, "refine_args": None, "modes": 0}
+                if not ctx.require(isinstance(tr, DropletTracker), "direct:timecourse-tracker-type", f"EmulsionTimeCourse.tracker returned {type(tr).__name__}"):
+                    return
+            else:
+                tr = DropletTracker(1, filename=path, emulsion_timecourse=existing, source=source, threshold=kw["threshold"], minimal_radius=kw["minimal_radius"], refine=kw["refine"], refine_args=kw["refine_args"], perturbation_modes=kw["modes"])
+            if file_storage:
+                # the fields are stored on disk and analysed from there afterwards
+                from pde import FileStorage
+
+                ctx.cls("storage:file")
+                storage = FileStorage(os.path.join(tmp, "fields.hdf5"), write_mode="truncate")
+            else:
+                storage = MemoryStorage()
 
             def wrap(f, k):
                 if src is None:
@@ -232,7 +254,12 @@ class C14(Property):
             if fields:
                 storage.end_writing()
             off_kw = self._plain(kw)
+            if file_storage:
+                storage.close()
+                storage = FileStorage(os.path.join(tmp, "fields.hdf5"), write_mode="read_only")
             offline = EmulsionTimeCourse.from_storage(storage, progress=False, **off_kw) if fields else EmulsionTimeCourse()
+            if file_storage:
+                storage.close()
             self._compare(ctx, tr.data, offline, prefix_model, "direct")
             if existing is not None:
                 ctx.require(tr.data is existing, "direct:supplied-timecourse-not-used", "the supplied emulsion_timecourse is not the object holding the data")
